@@ -315,6 +315,7 @@ type dnsWorld struct {
 	vers    map[[3]int]int
 	fwds    []*dnsFwd
 	curFwd  map[string]*dnsFwd   // forwarder whose ForwardDNS runs on a task
+	evictCause map[*DnsCache]string
 	chains  map[string]*dnsChain // current chain per task
 	allChains []*dnsChain
 
@@ -343,7 +344,7 @@ func dnsNewWorld(s *verifsim.Sim, mode int) *dnsWorld {
 	logger := logrus.New()
 	logger.SetOutput(io.Discard)
 	w := &dnsWorld{s: s, T: s.T, mode: mode, log: logger, spec: map[[3]int]dnsAnsSpec{}, vers: map[[3]int]int{},
-		chains: map[string]*dnsChain{}, curOp: map[string]*dnsOp{}, curFwd: map[string]*dnsFwd{}}
+		chains: map[string]*dnsChain{}, curOp: map[string]*dnsOp{}, curFwd: map[string]*dnsFwd{}, evictCause: map[*DnsCache]string{}}
 	w.asis = netip.MustParseAddrPort("10.9.9.9:53")
 	return w
 }
@@ -1032,6 +1033,12 @@ func (w *dnsWorld) controllerOption() *DnsControllerOption {
 	opt.MaxCacheSize = w.cfg.maxSize
 	opt.BestDialerChooser = w.chooseDialer
 	opt.TimeoutExceedCallback = func(*dialArgument, error) {}
+	// observe which path evicts an entry (the production callback still runs)
+	prod := opt.CacheDeleteCallback
+	opt.CacheDeleteCallback = func(k string, c *DnsCache) error {
+		w.evictCause[c] = dnsEvictionPath()
+		return prod(k, c)
+	}
 	return opt
 }
 
@@ -1226,6 +1233,25 @@ func (w *dnsWorld) doOp(op *dnsOp, timeout time.Duration) {
 
 func (w *dnsWorld) keyOf(name int, qtype uint16) dnsKey {
 	return dnsKey{name: name, qtype: qtype, scope: w.rules.evalRequest(dnsAllNames[name], qtype, len(w.ups))}
+}
+
+// dnsEvictionPath names the controller path that is evicting an entry (from the call stack).
+func dnsEvictionPath() string {
+	switch {
+	case dnsCallerHas("evictLRUIfFull"):
+		return "lru"
+	case dnsCallerHas("evictExpiredDnsCache"):
+		return "janitor-expiry"
+	case dnsCallerHas("backgroundRefresh"):
+		return "end-of-refresh"
+	case dnsCallerHas("RemoveDnsRespCacheFamily"):
+		return "rejected-question"
+	case dnsCallerHas("LookupDnsRespCache_"):
+		return "lookup"
+	case dnsCallerHas("LookupDnsRespCache"):
+		return "plain-lookup"
+	}
+	return "other"
 }
 
 // sortedInts is a tiny helper for stable messages.
